@@ -84,12 +84,18 @@ def opOfJson (j : Json) : R OpJ := do
 
 def handleGenes (j : Json) : R Json := do
   let ops ← listOf opOfJson (← fld j "ops")
-  let (st, outs) := ops.foldl (fun (acc : GState × List Json) op =>
+  let gop (op : OpJ) : GOp :=
+    if op.kind == "gene" then .gene (op.locus.getD []) op.loc else .cds op.loc op.locus op.gene op.protein op.chk
+  -- the state evolves by the model's `applyOp` (the function the theorems are about); the per-call
+  -- outcome is read off `addCds` on the state before the call
+  let (_, outs) := ops.foldl (fun (acc : GState × List Json) op =>
     let (s, o) := acc
-    if op.kind == "gene" then (addGene s (op.locus.getD []) op.loc, o ++ [Json.str "gene"])
-    else match addCds s (mkCds op.loc op.locus op.gene op.protein) op.chk with
-      | .ok (s', n) => (s', o ++ [jObj [("name", jS n)]])
-      | .error e => (s, o ++ [jObj [("err", Json.str (gerrStr e))]])) (({} : GState), [])
+    let out := if op.kind == "gene" then Json.str "gene"
+      else match addCds s (mkCds op.loc op.locus op.gene op.protein) op.chk with
+        | .ok (_, n) => jObj [("name", jS n)]
+        | .error e => jObj [("err", Json.str (gerrStr e))]
+    (applyOp s (gop op), o ++ [out])) (({} : GState), [])
+  let st := runOps {} (ops.map gop)
   -- spec on the implementation's final CDS list: [[name, loc], …]
   let implJ := fldD j "impl" Json.null
   let spec ← match implJ with
